@@ -268,9 +268,12 @@ def ref_bcast(fn):
 
 def ref_addmm(xs, a):
     x, b, c = xs
-    if b.ndim != 2 or c.ndim != 2 or b.shape[1] != c.shape[0]:
+    if b.ndim < 2 or c.ndim < 2 or b.shape[-1] != c.shape[-2]:
         raise Reject("mm shapes")
-    mm = b @ c
+    try:
+        mm = np.matmul(b, c)
+    except ValueError:
+        raise Reject("batch dims")
     try:
         if np.broadcast_shapes(x.shape, mm.shape) != mm.shape:
             raise Reject("bias not broadcastable to result")
@@ -384,7 +387,8 @@ _reg(Op("matmul", {
     "operator": lambda L, t, a: t[0] @ t[1],
     "operator_ndarray_right": lambda L, t, a: t[0] @ t[1].data,
 }, ref_matmul, narg=2, documented=lambda a, s: len(s[0]) >= 2 and len(s[1]) >= 2))
-_reg(Op("addmm", {"func": lambda L, t, a: L.sg.addmm(t[0], t[1], t[2])}, ref_addmm, narg=3))
+_reg(Op("addmm", {"func": lambda L, t, a: L.sg.addmm(t[0], t[1], t[2])}, ref_addmm, narg=3,
+        documented=lambda a, s: len(s[1]) == 2 and len(s[2]) == 2, argclass=lambda a, s: "batched" if a.get("batched") else "2d"))
 _reg(Op("pow", {
     "func": lambda L, t, a: L.sg.pow(t[0], a["n"]),
     "operator": lambda L, t, a: t[0] ** a["n"],
@@ -398,14 +402,40 @@ _reg(Op("neg", {
     "func": lambda L, t, a: L.sg.neg(t[0]),
     "operator": lambda L, t, a: -t[0],
 }, lambda xs, a: -xs[0], vclasses=("normal", "negative")))
+def _slice_then_mutate_index(L, t, a):
+    idx = gen.dec_index(a["index"])
+    out = t[0][idx]
+    # the caller re-uses its index container afterwards; the recorded op must not follow it
+    for part in (idx if isinstance(idx, tuple) else (idx,)):
+        if isinstance(part, list) and part and not isinstance(part[0], bool):
+            part[:] = [0] * len(part)
+        elif isinstance(part, np.ndarray) and part.dtype != bool and part.size:
+            part[...] = 0
+    return out
+
+
 _reg(Op("slice", {
     "getitem": lambda L, t, a: t[0][gen.dec_index(a["index"])],
     "func": lambda L, t, a: L.sg.slice(t[0], gen.dec_index(a["index"])),
+    "getitem_index_mutated_after": _slice_then_mutate_index,
 }, ref_slice, argclass=lambda a, s: gen.index_class(a["index"]),
         documented=lambda a, s: a["index"]["t"] == "slice"))
+def _then_mutate_list(call):
+    def f(L, t, a):
+        lst = list(t)
+        out = call(L, lst, a)
+        lst.reverse()               # the caller goes on using (and changing) its own list
+        if lst:
+            lst.pop()
+        return out
+    return f
+
+
 _reg(Op("concat", {"func": lambda L, t, a: L.sg.concat(list(t), a["dim"]),
-                   "func_tuple": lambda L, t, a: L.sg.concat(tuple(t), a["dim"])}, ref_concat, narg=None))
-_reg(Op("stack", {"func": lambda L, t, a: L.sg.stack(list(t), a["dim"])}, ref_stack, narg=None))
+                   "func_tuple": lambda L, t, a: L.sg.concat(tuple(t), a["dim"]),
+                   "func_list_mutated_after": _then_mutate_list(lambda L, lst, a: L.sg.concat(lst, a["dim"]))}, ref_concat, narg=None))
+_reg(Op("stack", {"func": lambda L, t, a: L.sg.stack(list(t), a["dim"]),
+                  "func_list_mutated_after": _then_mutate_list(lambda L, lst, a: L.sg.stack(lst, a["dim"]))}, ref_stack, narg=None))
 _reg(Op("unbind", {"func": lambda L, t, a: L.sg.unbind(t[0], a["dim"])}, ref_unbind,
         documented=lambda a, s: True))
 _reg(Op("clone", {"func": lambda L, t, a: L.sg.clone(t[0]), "method": lambda L, t, a: t[0].clone()}, lambda xs, a: xs[0].copy()))
@@ -515,6 +545,12 @@ def grid(opname, tier, rng):
         out.append(([[3], [3]], {}))       # 1-D: documented as rejected
         out.append(([[2, 3], [3]], {}))
     elif opname == "addmm":
+        # batched products (forward accepts whatever `a + b @ c` accepts)
+        for sb, sc in (([3, 4], [2, 4, 5]), ([1, 3, 4], [2, 4, 5]), ([2, 3, 4], [4, 5]), ([2, 3, 4], [2, 4, 5]), ([2, 1, 3, 4], [1, 2, 4, 2])):
+            mm = list(np.broadcast_shapes(tuple(sb[:-2]), tuple(sc[:-2]))) + [sb[-2], sc[-1]]
+            pats = gen.broadcast_patterns(mm)
+            for sa in ([mm, pats[-1], pats[len(pats) // 2]] if not thorough else pats):
+                out.append(([sa, sb, sc], {"batched": True}))
         for m, k, n in ([(2, 3, 2), (1, 2, 3), (3, 1, 1)] if not thorough else [(2, 3, 2), (1, 2, 3), (3, 1, 1), (2, 2, 2), (1, 1, 1)]):
             for sa in gen.broadcast_patterns([m, n]):
                 out.append(([sa, [m, k], [k, n]], {}))
